@@ -161,7 +161,7 @@ def oracle(rep, cid, lines, cl, stats):
 
 def run(rep, work, rng, tier):
     common.proof_part(rep, 'C09', trusted_extra=['Flocq 4.1 binary32 (only in the executable instance; Example C09_nonvacuous depends on the standard-library axioms ClassicalDedekindReals.sig_forall_dec, sig_not_dec, Classical_Prop.classic, FunctionalExtensionality.functional_extensionality_dep through it)'])
-    n = 250 if tier == 'quick' else 6000
+    n = 250 if tier == 'quick' else 24000
     cases = []; kinds = {}
     for i in range(n):
         lines, k = build(rng, rng.choice([2, 5, 9, 14]))
